@@ -743,6 +743,20 @@ class Gen:
         return self.funcs, init + body + tail
 
 
+def probe_program(rnd, funcs, focus="functions", nstmts=None):
+    """a valid program over the standard global names that uses (but does not define) the given functions"""
+    g = Gen(rnd, focus, nfuncs=0)
+    g.funcs = list(funcs)
+    g.marker = 5000
+    sc = {"ints": list(g.INTS), "bools": list(g.BOOLS), "strs": list(g.STRS), "tabs": list(g.TABS), "loopv": list(g.LOOPV), "iters": list(g.ITERV), "active": [], "locked": []}
+    body = g.body(sc, 0, nstmts if nstmts is not None else rnd.randint(2, 6))
+    for f in funcs:
+        if f["name"] != "tmul" and rnd.random() < 0.8:
+            body.append(("begin", [("assign", "c", ("call", f["name"], [g.arg_of(t, sc) for t in f["ptypes"]])), ("print", g.mk(), [("var", "c")])], [("others", [("print", g.mk(), [("errname",)])])]))
+    body.append(("print", g.mk(), [("var", "a"), ("var", "b"), ("var", "c"), ("var", "p"), ("var", "s"), ("count", "t"), ("count", "w")]))
+    return body
+
+
 def bounded(funcs, prog, maxsteps=4000):
     """run the reference interpreter; returns (interp, outcome) or None when the program exceeds the step bound"""
     it = Interp(funcs, maxsteps)
